@@ -139,7 +139,7 @@ func GenRoutes(t *rapid.T, o *RouteOpts) *RouteSpec {
 		{Name: "ByTag", Kind: "map", Key: "IdTag", Elem: "string"},
 	}
 	typePool := []string{"Item", "Filter", "Items", "Index", "[]Item", "map[string]Item", "int", "string", "[]int64", "IdItem", "uint", "[][]string", "bool", "inner.Payload",
-		"ByTag", "map[IdGroup]bool", "map[int]string"}
+		"ByTag", "map[IdGroup]bool", "map[int]string", "[2]int", "[2]int16", "[3]float64"}
 	rs.Ctrls = []RCtrl{{Var: "ct", Pointer: rapid.Bool().Draw(t, "ctPtr")}, {Var: "ct2", Inner: true}}
 	if rapid.Bool().Draw(t, "secondCtrl") {
 		rs.Ctrls = append(rs.Ctrls, RCtrl{Var: "admin", Pointer: rapid.Bool().Draw(t, "adminPtr")})
